@@ -1774,6 +1774,41 @@ func (self *Fork) expandForkFromRef(must bool, i int,
 	if bNode != self.node {
 		bNode.expandForks(must)
 	}
+	// A reference which names one specific fork of the node for every call the
+	// node forks over, and which this fork does not follow, is a reference to
+	// the (collection-typed) output of that one fork; this call is mapped
+	// over that value, not over the node's forks.
+	oneFork := len(bNode.forkRoots) > 0 && len(ref.Forks) > 0
+	for _, root := range bNode.forkRoots {
+		if _, err := self.forkId.matchPart(root); err == nil {
+			continue
+		}
+		if idx := ref.Forks[root]; idx == nil || idx.IndexSource() != nil {
+			oneFork = false
+			break
+		}
+	}
+	if oneFork {
+		f, err := bNode.matchFork(ref.Forks, self.forkId)
+		if err != nil {
+			return nil, &elementError{
+				element: "evaluating mapping source " + ref.GoString(),
+				inner:   err,
+			}
+		}
+		ready, obj, err := f.resolveRef(ref, nil,
+			bNode.call.Call().DecId, readSizeLimit)
+		if err != nil {
+			return nil, &elementError{
+				element: "evaluating mapping source " + ref.GoString(),
+				inner:   err,
+			}
+		}
+		if !ready {
+			return nil, nil
+		}
+		return self.expandForkFromObj(i, part, split, obj, ref, result)
+	}
 	if parts := self.getUnmatchedForkParts(bNode); len(parts) > 0 {
 		flen := len(self.forkId)
 		if flen == 0 {
